@@ -92,7 +92,7 @@ def corpus_types(facts):
     return [t for t in facts.corpus_meta.get("types", []) if not t.get("generic")]
 
 
-@rule("W5", ["C01", "C02", "C03", "C18"], floor=250, doc="derived Serialize/Deserialize of every corpus definition, at every version "
+@rule("W5", ["C01", "C02", "C03", "C18", "C10"], floor=250, doc="derived Serialize/Deserialize of every corpus definition, at every version "
       "class and both Packed outcomes, produce exactly the documented field sequence (declaration order, version ranges, "
       "discriminant = variant index in the documented width)")
 def w5(facts, tier):
@@ -138,7 +138,7 @@ def w5(facts, tier):
                     ok, info = lang_equal(W, lr, mr, v, g)
                 if ok is not True and bad is None:
                     bad = ("reader", v, pk, info, lr, mr)
-        props = ["C01", "C02"] + (["C03", "C18"] if m.get("family", "").startswith("EVO") or cur > 0 else [])
+        props = ["C01", "C02"] + (["C03", "C18", "C10"] if m.get("family", "").startswith("EVO") or cur > 0 else [])
         if bad is None:
             yield ob(props, "W5", ty, "pass", where(wf), f"writer and reader = documented sequence in {n_env} environments",
                      program=ty, environments=n_env)
@@ -321,7 +321,7 @@ def h1(facts, tier):
                      f"{rx.show(l)[:200] if l else '-'} ; documented: {rx.show(mdl)[:200] if mdl else '-'}", program=key, saved=k, loaded=j)
 
 
-@rule("H2", ["C18"], floor=60, doc="for every evolution history and k < n: the writer derived from the newest definition, told to write version k, "
+@rule("H2", ["C18", "C10"], floor=60, doc="for every evolution history and k < n: the writer derived from the newest definition, told to write version k, "
       "emits the version-k layout (later fields omitted, AbiRemoved fields filled from their value constructor), or diverges when "
       "a plain Removed field would have to be written")
 def h2(facts, tier):
@@ -351,17 +351,17 @@ def h2(facts, tier):
                         bad = (j, k, lw, model_k)
         key = h["name"]
         if bad is None:
-            yield ob(["C18"], "H2", key, "pass", "", f"history {h['script']}: {cnt} (current, written) version pairs agree", program=key, pairs=cnt)
+            yield ob(["C18", "C10"], "H2", key, "pass", "", f"history {h['script']}: {cnt} (current, written) version pairs agree", program=key, pairs=cnt)
         else:
             j, k, l, mdl = bad
-            yield ob(["C18"], "H2", key, "violation", "", f"history {h['name']} {h['script']}: the version-{j} definition writing version {k} "
+            yield ob(["C18", "C10"], "H2", key, "violation", "", f"history {h['name']} {h['script']}: the version-{j} definition writing version {k} "
                      f"emits {rx.show(l)[:200]} ; documented version-{k} layout: {rx.show(mdl)[:200]}", program=key, current=j, written=k)
 
 
 # ---------------------------------------------------------------------------------------------
 # P2 / P5: the Packed decision against the compiler's layout
 
-@rule("P2", ["C04", "C01", "C18"], floor=250, doc="whenever repr_c_optimization_safe(v) can answer yes for a corpus type, rustc's layout of the type is "
+@rule("P2", ["C04", "C01", "C18", "C10"], floor=250, doc="whenever repr_c_optimization_safe(v) can answer yes for a corpus type, rustc's layout of the type is "
       "byte-identical to its field-by-field encoding at v (fields in wire order, contiguous from 0 to size_of, no padding, tag = "
       "variant index in the wire width, every wire field present in memory and vice versa)")
 def p2(facts, tier):
@@ -383,7 +383,7 @@ def p2(facts, tier):
                 ok, why = orc.ok(ty, v)
                 if not ok and bad is None:
                     bad = (v, why)
-        props = ["C04", "C01"] + (["C18"] if cur > 0 else [])
+        props = ["C04", "C01"] + (["C18", "C10"] if cur > 0 else [])
         if bad:
             v, why = bad
             root = root_cause(pe, orc, ty, v)
